@@ -72,6 +72,7 @@ var c06Needles = map[string]string{
 	"elide-then-delete":       "c14",
 	"unparseable-result":      "c14chk",
 	"plain-names":             "c14keep",
+	"drop-arg":                "c14emit",
 }
 
 // c06Exact: for these changes the only possible instance is known, so a file
